@@ -198,8 +198,8 @@ func runCheck(args []string) int {
 	// vacuity: every declared reach label must have been reached
 	var broken []string
 	for hi, h := range chk.Harnesses {
-		if len(r.items[hi]) == 0 {
-			continue
+		if len(r.items[hi]) == 0 || r.stop {
+			continue // exploration was cut short (violation limit / budget): reachability is not judged
 		}
 		for _, l := range h.Reach {
 			if r.stats[hi].Reach[l] == 0 {
